@@ -315,4 +315,87 @@ theorem reorg_reaches {c : Ctx} {S : List Block} (H : ReorgHyp c S) {s : Store} 
       simp only [hi, if_false, Option.map_none]
       rw [List.getElem?_eq_none (by simp; omega)]
 
+-- ------------------------------------------------------------------ 6. processBlock
+
+/-- the database transaction of processConnectedBlock (the `r` of `processBlock`) -/
+def processM (c : Ctx) (s : Store) (v : Vol) (b : Block) : M (Store × List Nat × List (Nat × List TxId)) :=
+  if b.prev = v.best.hash then do
+    let ready := readyWallets s c.wallets
+    let (s', conf) ← filterBlock c s ready b
+    pure (s', [], [(b.height, conf)])
+  else reorg c s v.best b
+
+theorem processBlock_of_ok {c : Ctx} {s : Store} {v : Vol} {b : Block} {s' : Store} {rolled : List Nat}
+    {added : List (Nat × List TxId)} (h : processM c s v b = .ok (s', rolled, added)) :
+    ∃ v', processBlock c s v b = (s', v', true) ∧ v'.best = ⟨b.height, b.id⟩ := by
+  unfold processM at h
+  unfold processBlock
+  simp only [h]
+  exact ⟨_, rfl, rfl⟩
+
+theorem processBlock_of_error {c : Ctx} {s : Store} {v : Vol} {b : Block} {e : Err}
+    (h : processM c s v b = .error e) : processBlock c s v b = (s, v, false) := by
+  unfold processM at h
+  unfold processBlock
+  simp only [h]
+
+theorem tipMeta_take {N : List Block} (hN : GoodChain N) {b : Block} (hb : N[b.height]? = some b) :
+    tipMeta (N.take (b.height + 1)) = ⟨b.height, b.id⟩ := by
+  obtain ⟨x, hx, ht⟩ := tipMeta_good (goodChain_take hN b.height)
+  have hl : b.height < N.length := (List.getElem?_eq_some_iff.1 hb).1
+  have hlen : (N.take (b.height + 1)).length = b.height + 1 := by rw [List.length_take]; omega
+  rw [hlen] at hx ht
+  simp only [Nat.add_sub_cancel] at hx ht
+  rw [getElem?_take_of_lt (Nat.lt_succ_self _), hb] at hx
+  rw [ht, ← Option.some.inj hx]
+
+/-- item 6: a notification for ANY block `b` of the node's best chain brings the wallet to
+    `T = N.take (b.height+1)`, whatever chain `S` it stored before, and the follower's tip becomes `b`.
+    EXTRA HYPOTHESIS `hgen` (necessary, see the report): if `b` is the genesis block, its `prev` pointer is not
+    the hash of the wallet's tip (in reality the genesis `prev` is the zero hash, which is no block's hash);
+    otherwise the direct path would re-connect the genesis block on top of the tip. -/
+theorem processBlock_reaches {c : Ctx} {S : List Block} (H : ReorgHyp c S) {s : Store} {v : Vol} {b : Block}
+    (hI : Inv c s S) (hb : c.node.chain[b.height]? = some b) (hv : v.best = tipMeta S)
+    (hgen : b.height = 0 → b.prev ≠ (tipMeta S).hash)
+    (hAR : AllReady c.own (readyWallets s c.wallets)) (hne : (readyWallets s c.wallets).isEmpty = false) :
+    ∃ s' v', processBlock c s v b = (s', v', true) ∧ Inv c s' (c.node.chain.take (b.height + 1)) ∧
+      v'.best = ⟨b.height, b.id⟩ ∧ v'.best = tipMeta (c.node.chain.take (b.height + 1)) ∧
+      ∀ ws, readyWallets s' ws = readyWallets s ws := by
+  suffices h : ∃ s' rolled added, processM c s v b = .ok (s', rolled, added) ∧
+      Inv c s' (c.node.chain.take (b.height + 1)) ∧ ∀ ws, readyWallets s' ws = readyWallets s ws by
+    obtain ⟨s', rolled, added, h1, h2, h3⟩ := h
+    obtain ⟨v', h4, h5⟩ := processBlock_of_ok h1
+    exact ⟨s', v', h4, h2, h5, by rw [h5, tipMeta_take H.goodN hb], h3⟩
+  unfold processM
+  rw [hv]
+  by_cases hp : b.prev = (tipMeta S).hash
+  · -- direct path: `b` extends the stored chain
+    simp only [hp, if_true]
+    obtain ⟨xH, hxH, htip⟩ := tipMeta_good H.goodS
+    have hSpos := H.goodS.length_pos
+    have hB0 : ¬ b.height = 0 := fun h0 => hgen h0 hp
+    obtain ⟨k, hk⟩ : ∃ k, b.height = k + 1 := ⟨b.height - 1, by omega⟩
+    rw [hk] at hb
+    have hkN : k < c.node.chain.length := by have := (List.getElem?_eq_some_iff.1 hb).1; omega
+    have hy : c.node.chain[k]? = some c.node.chain[k] := List.getElem?_eq_getElem hkN
+    have hid : xH.id = c.node.chain[k].id := by
+      rw [← H.goodN.prev_at hy hb, hp, htip]
+    have hpos := pos_of_id H.goodS H.goodN H.inj hxH hy hid
+    have hpre := prefix_of_id H.goodS H.goodN H.inj _ _ _ hxH (by rw [hpos]; exact hy) hid
+    rw [show S.length - 1 + 1 = S.length by omega, List.take_length] at hpre
+    have hSlen : S.length = k + 1 := by omega
+    replace hpre : S = c.node.chain.take (k + 1) := by rw [← hSlen]; exact hpre
+    have hnode : c.node.chain = S ++ b :: c.node.chain.drop (k + 2) := by
+      conv => rhs; rw [hpre]
+      have : c.node.chain.drop (k + 1) = b :: c.node.chain.drop (k + 2) := by
+        rw [List.drop_eq_getElem?_toList_append, hb]; rfl
+      rw [← this, List.take_append_drop]
+    obtain ⟨s', conf, h1, hI', hst⟩ := connect_sound hI hnode H.validN (by omega) hAR hne
+    refine ⟨s', [], [(b.height, conf)], ?_, ?_, fun ws => readyWallets_congr hst ws⟩
+    · rw [h1]; rfl
+    · rw [hk, take_succ_of_get hb, ← hpre]; exact hI'
+  · simp only [hp, if_false]
+    obtain ⟨s', rolled, added, h1, h2, h3, _⟩ := reorg_reaches H hI hb hAR hne
+    exact ⟨s', rolled, added, h1, h2, h3⟩
+
 end MW.Lemmas.Ledger
